@@ -48,10 +48,10 @@ def _decode_signature_table(F, r1, dfn):
                    (dfn, "signing-input-header"), "create_message's first operand is not the bytes of the received protected segment: %r" % (a0,))
         r1.require(sym.term(a1) == SR.param("payload"), (dfn, "signing-input-payload"), "create_message's second operand is not the received payload: %r" % (a1,))
         si = item.f.get("signing_input")
-        r1.require(si is not None and SR.derives(si, cms[0].result.t), (dfn, "signing_input-field"), "JwsValidationItem.signing_input is not the result of create_message: %r" % (si,))
+        r1.require(si is not None and SR.pure(si, cms[0].result.t), (dfn, "signing_input-field"), "JwsValidationItem.signing_input is not (the whole of) the result of create_message: %r" % (si,))
         sg = item.f.get("decoded_signature")
         want = ("call", B64 + "::decode_b64", (SR.fld("signature", base=SR.param("jws_signature")),))
-        r1.require(sg is not None and SR.derives(sg, want), (dfn, "decoded_signature-field"), "decoded_signature is not decode_b64(jws_signature.signature): %r" % (sg,))
+        r1.require(sg is not None and SR.pure(sg, want), (dfn, "decoded_signature-field"), "decoded_signature is not (the whole of) decode_b64(jws_signature.signature)?: %r" % (sg,))
         for e in q.events:
             if e.kind == "call" and re.search(r"(encode_b64|serde_json::(to_string|to_vec|to_value)|ToJson|to_json)", e.fn or ""):
                 r1.fail((dfn, "re-serialise", e.fn), "decode_signature calls the encoder/serialiser %s: the signing input may be built from re-serialised data" % e.fn)
@@ -100,7 +100,7 @@ def _claims_rule(r4, item_paths, dfn):
         inner = claims.fields[0] if isinstance(claims, sym.V) and claims.fields else None
         if eff:
             dec = ("call", B64 + "::decode_b64", (SR.param("payload"),))
-            ok = kind == "Owned" and inner is not None and SR.derives(inner, dec) and SR.call_succeeded(q, r"::decode_b64$", {0: lambda a: sym.term(a) == SR.param("payload")})
+            ok = kind == "Owned" and inner is not None and SR.pure(inner, dec) and SR.call_succeeded(q, r"::decode_b64$", {0: lambda a: sym.term(a) == SR.param("payload")})
             r4.require(ok, (dfn, "claims-owned"), "with b64 absent/true the claims are not Owned(decode_b64(payload)?): %r" % (claims,))
         else:
             ok = kind == "Borrowed" and inner is not None and sym.term(inner) == SR.param("payload")
